@@ -16,6 +16,8 @@ from .. import core, docgen
 SPELL = [
     {"LB": "{", "RB": "}", "QT": '"', "CM": ",", "EQ": "=", "SP": " ", "W": "ab", "D": "12", "H": "#", "ESC": "\\}"},
     {"LB": "{", "RB": "}", "QT": '"', "CM": ",", "EQ": "=", "SP": "\t \n", "W": "é.x", "D": "007", "H": "#", "ESC": "\\,"},
+    # blanks inside a value are content: a CR LF pair, a form feed and a no-break space come back as they were written
+    {"LB": "{", "RB": "}", "QT": '"', "CM": ",", "EQ": "=", "SP": " \r\n\x0c\u00a0", "W": "x\r\ny", "D": "3", "H": "#", "ESC": "\\{"},
 ]
 INT = 5
 
